@@ -1261,6 +1261,11 @@ class Var:
         # values of the inputs, which are not kept up-to-date outside of a model
         _update_recursive_inputs(self)
 
+        # the same holds for variables and nodes given as bijector arguments
+        for arg in (*bijector_args, *bijector_kwargs.values()):
+            if isinstance(arg, (Var, Node)):
+                _update_recursive_inputs(arg)
+
         # use default event space bijector if bijector is None
         use_default_bijector = bijector is None
         if use_default_bijector:
@@ -1584,8 +1589,11 @@ class Var:
         return f'{type(self).__name__}(name="{self.name}")'
 
 
-def _update_recursive_inputs(var: Var) -> None:
-    """Updates the recursive inputs of a variable (inputs first), then the variable."""
+def _update_recursive_inputs(var: Var | Node) -> None:
+    """
+    Updates the recursive inputs of a variable or node (inputs first), then the
+    variable or node itself.
+    """
     visited: set[int] = set()
     ordered: list[Node] = []
 
@@ -1600,7 +1608,7 @@ def _update_recursive_inputs(var: Var) -> None:
 
         ordered.append(node)
 
-    for node in var.nodes:
+    for node in var.nodes if isinstance(var, Var) else [var]:
         visit(node)
 
     for node in ordered:
